@@ -4,6 +4,7 @@ equal up to addresses and whose mutable addresses are all fresh; branch trees bu
 one of which covers the other, enter a superset of nodes.
 -/
 import Dawgs.Model.C11
+set_option linter.unusedSectionVars false
 namespace Dawgs.C11
 
 /-! ### copy -/
@@ -382,7 +383,7 @@ theorem infoK_sub : ∀ (ks : List Val) (sh : Shape) (p : List Nat) (j : Nat),
   | [], sh, p, j => by
     refine ⟨by simpa [infoK] using RelL_nil, by simp [infoK, labelsL], ?_⟩
     intro q j' keys
-    cases keys <;> simp [infoK, itemTrees, labelsL]
+    cases keys <;> simp [itemTrees, labelsL]
   | k :: ks, sh, p, j => by
     have ih1 := info_sub k (kidPath sh p j)
     have ih2 := infoK_sub ks sh p (j + 1)
